@@ -1,2 +1,8 @@
 import WrglModel.Props.C05
-#print axioms Wrgl.C05_placeholder
+#print axioms Wrgl.C05_resolveCell_spec
+#print axioms Wrgl.C05_model_meets_spec_partial
+#print axioms Wrgl.C05_identity
+#print axioms Wrgl.C05_idempotent
+#print axioms Wrgl.C05_order_independent
+#print axioms Wrgl.C05_conflict_reported
+#print axioms Wrgl.C05_disjoint_no_conflict
